@@ -3,6 +3,7 @@
      E <nprods> <rs> <ntokens> | <tidx>*                       implicit-token rewrite
      A <ntok> | <tidx>*                                        avoid_insert bits
      G <start> | <sym:tgt>* ; … (one list per state) | <sched> ; <sched> ; …
+     P | <known key>* | <key:start:end>* ; <key:start:end>* ; …      `%epp` validation loop, one entry list per iteration order
      T | <t:level:kind>* | <p:level:kind>* | <cell>* | <goto>* | <0/1>* | <sym:tgt>* ; <sym:tgt>* ; …
    one result line per case. *)
 let ints s = List.map int_of_string (split_ws s)
@@ -88,5 +89,17 @@ let () =
         Buffer.add_string b (Printf.sprintf " # R %s # RF %s" (show_out show_row r) (show_out show_row rf))) res;
       Buffer.add_string b (Printf.sprintf " # fixed_allsame=%d raw_allsame=%d"
         (if all_same (List.map snd res) then 1 else 0) (if all_same (List.map fst res) then 1 else 0));
+      Buffer.contents b
+    | hd :: [known; orders] when String.length hd > 0 && hd.[0] = 'P' ->
+      let orders = List.map triples (sects ';' orders) in
+      let res = run_epp (nats known) orders in
+      let sh = function
+        | None -> "none"
+        | Some (k, (a, b)) -> Printf.sprintf "%d:%d:%d" (int_of_nat k) (int_of_nat a) (int_of_nat b) in
+      let b = Buffer.create 256 in
+      Buffer.add_string b "P";
+      List.iter (fun (m, f) -> Buffer.add_string b (Printf.sprintf " # M %s F %s" (sh m) (sh f))) res;
+      Buffer.add_string b (Printf.sprintf " # min_allsame=%d first_allsame=%d"
+        (if all_same (List.map fst res) then 1 else 0) (if all_same (List.map snd res) then 1 else 0));
       Buffer.contents b
     | _ -> "BADCASE")
